@@ -2,7 +2,8 @@
    Print Assumptions; the statements are pinned here so they cannot be quietly weakened. *)
 From FB Require Import C02.Model C02.Encode C02.Theory1 C02.Theory2 C02.Theory3 C02.Theory4 C02.Theory5
   C02.Theory6 C02.Theory7 C02.Theory8 C02.Theory9 C02.Frames C02.TheoryF C02.Gen
-  C02.Class C02.Decode C02.Facts C02.TheoryC1 C02.TheoryC2 C02.TheoryC3 C02.TheoryC4 C02.TheoryC5 C02.TheoryC6 C02.TheoryC7 C02.TheoryC8 C02.TheoryC9 C02.TheoryC10 C02.TheoryC11 C02.TheoryG C02.Expand C02.TheoryE.
+  C02.Class C02.Decode C02.Facts C02.TheoryC1 C02.TheoryC2 C02.TheoryC3 C02.TheoryC4 C02.TheoryC5 C02.TheoryC6 C02.TheoryC7 C02.TheoryC8 C02.TheoryC9 C02.TheoryC10 C02.TheoryC11 C02.TheoryG C02.Expand C02.TheoryE C02.TheoryD C02.TheoryB1 C02.TheoryB2 C02.TheoryR C02.TheoryT C02.TheoryI.
+From FB Require C18.Model.
 Local Open Scope Z_scope.
 
 (* ---------- termination of the branch-offset fixpoint ---------- *)
@@ -293,7 +294,7 @@ Print Assumptions C02_expand_example.
    positions in code are the offsets the written layout gives the labels; the code array is the one
    C02_write_is_encode / C02_targets_preserved speak about). *)
 Theorem C02_write_class_decodes : forall t bs aux,
-  cclass_ok t = true -> write_class_aux t = OK (bs, aux) ->
+  cclass_ok t = true -> write_class_aux t = WOK (bs, aux) ->
   exists d, facts_of t aux = Some d /\ parse_class bs = Some d.
 Proof. exact write_class_decodes. Qed.
 Print Assumptions C02_write_class_decodes.
@@ -345,7 +346,7 @@ Print Assumptions C02_write_class_no_panic.
 
 Theorem C02_class_example :
   cclass_ok ex_class = true /\
-  exists bs aux d, write_class_aux ex_class = OK (bs, aux) /\ facts_of ex_class aux = Some d /\ parse_class bs = Some d /\
+  exists bs aux d, write_class_aux ex_class = WOK (bs, aux) /\ facts_of ex_class aux = Some d /\ parse_class bs = Some d /\
                    zlen bs = 567 /\ length (d_attrs d) = 5%nat /\ a_bsm aux = [(ex_handle, [19; 4])].
 Proof. exact class_example. Qed.
 Print Assumptions C02_class_example.
@@ -399,3 +400,230 @@ Print Assumptions C02_examples.
 Theorem C02_far_conditional_widens : far_check = true.
 Proof. exact far_conditional_widens. Qed.
 Print Assumptions C02_far_conditional_widens.
+
+(* ---------- the count operand of invokeinterface ---------- *)
+(* args_size (C02/Class.v) models MethodDescriptorSlice::get_arguments_size on the modified-UTF-8 bytes of
+   the descriptor; lower_insn writes `185, index, count, 0` with count = args_size of the reference's descriptor.
+   For every method descriptor of the JVMS 4.3.3 grammar (C18's parser accepts exactly that grammar:
+   C18_method_parse_iff_grammar) the count is 1 + the argument slots of the parsed parameter list — long and
+   double two, everything else, arrays of long / double included, one — and more than 255 is an error. *)
+Theorem C02_invokeinterface_count : forall s ps rt,
+  C18.Model.parse_method s = Ok (ps, rt) ->
+  args_size (mutf8 s) =
+    (if 255 <? 1 + fold_right (fun t a => (match t with C18.Model.TD | C18.Model.TJ => 2 | _ => 1 end) + a) 0 ps then Err
+     else Ok (1 + fold_right (fun t a => (match t with C18.Model.TD | C18.Model.TJ => 2 | _ => 1 end) + a) 0 ps)).
+Proof. exact invokeinterface_count. Qed.
+Print Assumptions C02_invokeinterface_count.
+
+(* the loop consumes at least one byte per iteration: the fuel of the model never runs out *)
+Theorem C02_args_size_fuel : forall f1 f2 s z, (length s < f1)%nat -> (length s < f2)%nat -> args_loop f1 s z = args_loop f2 s z.
+Proof. exact args_loop_fuel. Qed.
+Print Assumptions C02_args_size_fuel.
+
+Theorem C02_args_size_range : forall desc n, args_size desc = Ok n -> 1 <= n <= 255.
+Proof. exact args_size_range. Qed.
+Print Assumptions C02_args_size_range.
+
+(* in the written code array: at the position of every invokeinterface the bytes are 185, an index that
+   designates the InterfaceMethodref of the instruction, the count computed from its descriptor, 0 *)
+Theorem C02_invokeinterface_written : forall c, ccode_ok c = true ->
+  wspec (write_code_attr c) (fun p r => Forall2 (fun i q =>
+    match snd i with
+    | IIface mr => exists x n, bytes_at (fst (fst (snd r))) q (185%N :: be16 x ++ [byte_of n; 0%N]) /\
+                               refers get_imethodref mr p x /\ args_size (mr_desc mr) = Ok n
+    | _ => True
+    end) (c_insns c) (snd (snd r))).
+Proof. exact invokeinterface_written. Qed.
+Print Assumptions C02_invokeinterface_written.
+
+Theorem C02_args_size_examples :
+  args_size (mutf8 d_arrJ) = Ok 2 /\ C18.Model.parse_method d_arrJ = Ok ([C18.Model.TArr 1 C18.Model.AJ], None) /\
+  args_size (mutf8 d_mixed) = Ok 6 /\
+  args_size (mutf8 d_test) = Ok 5 /\
+  C18.Model.parse_method d_test = Ok ([C18.Model.TI; C18.Model.TD; C18.Model.TObj [106; 47; 84]%N], Some (C18.Model.TObj [106; 47; 79]%N)) /\
+  args_size (mutf8 (d_n 254 73%N)) = Ok 255 /\ args_size (mutf8 (d_n 255 73%N)) = Err /\
+  args_size (mutf8 (d_n 127 74%N)) = Ok 255 /\ args_size (mutf8 (d_n 128 68%N)) = Err /\
+  args_size [40; 41]%N = Ok 1 /\ args_size [] = Err /\ args_size [40; 73]%N = Err /\ args_size [40; 76; 97]%N = Err /\
+  args_size [40; 195; 169; 41]%N = Ok 2 /\ args_size [40; 228; 184; 173; 41]%N = Ok 2 /\
+  args_size [40; 237; 160; 189; 237; 184; 128; 41]%N = Ok 2.
+Proof. exact args_size_examples. Qed.
+Print Assumptions C02_args_size_examples.
+
+(* ---------- the bootstrap-method table ---------- *)
+(* put_bootstrap_method de-duplicates and only ever appends: whatever a writer does, an index of the table keeps
+   its entry (and an index of the constant pool keeps its entry) — shown here for the three writers that can
+   reach put_bootstrap_method and for a whole method *)
+Theorem C02_bsm_only_grows :
+  (forall e s i s', put_bsm_entry e s = WOK (i, s') ->
+     0 <= i /\ nth_error (w_bsm s') (Z.to_nat i) = Some e /\ w_pool s' = w_pool s /\ exists r, w_bsm s' = w_bsm s ++ r) /\
+  (forall l s i s', put_loadable l s = WOK (i, s') -> pool_ext (w_pool s) (w_pool s') /\ exists r, w_bsm s' = w_bsm s ++ r) /\
+  (forall n d h a s i s', put_invoke_dynamic n d h a s = WOK (i, s') -> pool_ext (w_pool s) (w_pool s') /\ exists r, w_bsm s' = w_bsm s ++ r) /\
+  (forall m s r s', write_method m s = WOK (r, s') -> pool_ext (w_pool s) (w_pool s') /\ exists r, w_bsm s' = w_bsm s ++ r).
+Proof. exact bsm_only_grows. Qed.
+Print Assumptions C02_bsm_only_grows.
+
+(* what ldenotes says for a dynamic constant (the other loadables: loadable_refers of C02_code_operands_resolve):
+   the index designates a CONSTANT_Dynamic entry (b, nt); nt resolves to the constant's name and descriptor; b is an
+   index into the table whose entry is the constant's handle with argument indices that designate the constant's
+   arguments, in order, recursively *)
+Theorem C02_dynamic_denotes : forall p tbl n d h args x,
+  ldenotes p tbl (LDynamic n d h args) x <->
+  exists b nt idxs, resolves p x (CDynamic b nt) /\ refers get_nat (n, d) p nt /\
+    0 <= b /\ nth_error tbl (Z.to_nat b) = Some (h, idxs) /\ Forall2 (ldenotes p tbl) args idxs.
+Proof. exact ldenotes_dyn. Qed.
+Print Assumptions C02_dynamic_denotes.
+
+(* For every tree that satisfies cclass_ok: in the written class, at the position of every invokedynamic, the index
+   operand designates a CONSTANT_InvokeDynamic entry (b, nt) of the written pool such that nt resolves to the
+   instruction's name and descriptor and entry b of the written BootstrapMethods table is the instruction's handle with
+   argument indices designating the instruction's arguments; the same for every ldc of a dynamic constant and,
+   recursively, for dynamic constants among the arguments (a_pool aux is the pool that is written:
+   C02_pool_written_parses; a_bsm aux is the table the decoder finds in the file: C02_bootstrap_table_written with
+   C02_write_class_decodes) *)
+Theorem C02_bootstrap_resolves : forall t bs aux,
+  cclass_ok t = true -> write_class_aux t = WOK (bs, aux) ->
+  Forall2 (fun m ca =>
+    match md_code m, ca with
+    | Some c, Some (w, labs, pos) =>
+        Forall2 (fun i q =>
+          match snd i with
+          | ICp pre (KIndy n d h args) post =>
+              exists x b nt idxs, bytes_at w q (pre ++ be16 x ++ post) /\ resolves (a_pool aux) x (CInvokeDynamic b nt) /\
+                refers get_nat (n, d) (a_pool aux) nt /\ 0 <= b /\ nth_error (a_bsm aux) (Z.to_nat b) = Some (h, idxs) /\
+                Forall2 (ldenotes (a_pool aux) (a_bsm aux)) args idxs
+          | ILdc l => exists x, bytes_at w q (ldc_bytes l x) /\ ldenotes (a_pool aux) (a_bsm aux) l x
+          | _ => True
+          end) (c_insns c) pos
+    | None, None => True
+    | _, _ => False
+    end) (k_methods t) (a_codes aux).
+Proof. exact bootstrap_resolves_explicit. Qed.
+Print Assumptions C02_bootstrap_resolves.
+
+Theorem C02_bootstrap_table_written : forall t aux d,
+  facts_of t aux = Some d -> a_bsm aux <> [] -> In (ABootstrapMethods (a_bsm aux)) (d_attrs d).
+Proof. exact bootstrap_table_written. Qed.
+Print Assumptions C02_bootstrap_table_written.
+
+(* non-vacuity: an invokedynamic one of whose arguments is a dynamic constant with its own bootstrap method (put first:
+   index 0), the same dynamic constant loaded again by ldc (found: no third entry) *)
+Theorem C02_bootstrap_example :
+  cclass_ok exb_class = true /\
+  exists bs aux, write_class_aux exb_class = WOK (bs, aux) /\ length (a_bsm aux) = 2%nat /\
+    map fst (a_bsm aux) = [exb_h2; ex_handle] /\ map (fun e => length (snd e)) (a_bsm aux) = [1%nat; 2%nat].
+Proof. exact bootstrap_example. Qed.
+Print Assumptions C02_bootstrap_example.
+
+(* ---------- why the whole-class writer answers with an error ---------- *)
+(* The model names the place of every error: write_class_aux answers WERR c, c : ecause (C02/Class.v) — one constructor
+   per `?` on a checked conversion, `bail!` or missing label of the Rust code, carrying the values that decide it;
+   write_class (what the correspondence compares with duke::write_class) forgets c.  Whenever the writer answers with
+   an error, the condition that belongs to the cause holds:
+     EPool p e        the constant is not yet in the pool p and count + slots would exceed 65535   (pool overflow)
+     EBootstrap n     the bootstrap-method table already holds n > 65535 entries
+     ECount16 n       a u16 count / length with n > 65535;  ECount8 n: a u8 count with n > 255
+     ELen32 n         an attribute body / unknown attribute of n > 4294967295 bytes
+     ENoMax           a method of the tree has code without max_stack / max_locals
+     EArgs d          d is the descriptor of an invokeinterface of the tree and get_arguments_size fails on it
+                      (malformed, or more than 255 argument slots: C02_invokeinterface_count)
+     ECode es last    the branch-offset loop fails on the lowered body es of a method of the tree
+                      (then C02_code_cause_explained: malformed switch, label on no instruction, empty code, or
+                       code larger than 65535 bytes)
+     ELabel labs ls   a table (exceptions, line numbers, local variables, type annotations) refers to a label of ls
+                      that the final label map does not hold
+     EFrameOffset / EFrame   a stack map frame not after the previous one / without class-file form (chop or append
+                      of not 1..3 locals, more than 65535 locals or stack entries, Uninitialized on an unknown label)
+     EUtf8 p          the pool holds a string of more than 65535 bytes
+     EFuel            never *)
+Theorem C02_write_class_errors : forall t c, write_class_aux t = WERR c ->
+  match c with
+  | EPool p e => pfind (p_map p) e = None /\ 65535 < p_count p + (if pe_two e then 2 else 1)
+  | EBootstrap n => 65535 < n
+  | ECount16 n => 65535 < n
+  | ECount8 n => 255 < n
+  | ELen32 n => 4294967295 < n
+  | ENoMax => True
+  | EArgs d => args_size d = Err
+  | ECode es last => wc_loop (S (length es)) [] es last = Some ERR
+  | ELabel labs ls => exists l, In l ls /\ lget labs l = None
+  | EFrameOffset prev off => off <= prev
+  | EFrame labs f => frame_unwritable labs f
+  | EUtf8 p => exists e r, In e (p_inner p) /\ pe_key e = 1%N :: r /\ 65537 < zlen r
+  | EFuel => False
+  end /\
+  match c with
+  | ENoMax | EArgs _ | ECode _ _ =>
+      exists m c0, In m (k_methods t) /\ md_code m = Some c0 /\
+        match c with
+        | ENoMax => c_max c0 = None
+        | EArgs d => exists i r, In i (c_insns c0) /\ snd i = IIface r /\ d = mr_desc r
+        | ECode es last => last = c_last c0 /\ map fst es = map (fun i => fst (fst i)) (c_insns c0) /\
+                           Forall2 (fun i le => shape (snd i) (snd le)) (c_insns c0) es
+        | _ => True
+        end
+  | _ => True
+  end.
+Proof. exact write_class_errors. Qed.
+Print Assumptions C02_write_class_errors.
+
+Theorem C02_write_class_err_causes : forall t, write_class t = ERR ->
+  exists c, write_class_aux t = WERR c /\ ecause_holds c /\ class_info t c.
+Proof. exact write_class_err_causes. Qed.
+Print Assumptions C02_write_class_err_causes.
+
+(* for a method of a tree that satisfies ccode_ok and cspans_ok, ECode means one of the causes of C02_write_fails_cleanly *)
+Theorem C02_code_cause_explained : forall c es,
+  ccode_ok c = true -> cspans_ok c = true ->
+  wc_loop (S (length es)) [] es (c_last c) = Some ERR ->
+  (c_last c = c_last c /\ map fst es = map (fun i => fst (fst i)) (c_insns c) /\
+   Forall2 (fun i le => shape (snd i) (snd le)) (c_insns c) es) ->
+  exists Wd, attempt Wd es (c_last c) = AErr /\ cause Wd es (c_last c).
+Proof. exact code_cause_explained. Qed.
+Print Assumptions C02_code_cause_explained.
+
+(* the model computes the cause: no max_stack; 256 argument slots; a line number on a label no instruction carries; a
+   goto to a label no instruction carries; a chop of 4 locals; a method without instructions *)
+Theorem C02_error_examples :
+  write_class_aux (class_of (code_of None [(None, None, IRaw [177]%N)] None)) = WERR ENoMax /\
+  write_class_aux (class_of (code_of (Some (1, 1)) [(None, None, IIface (iface_ref d256)); (None, None, IRaw [177]%N)] None)) = WERR (EArgs d256) /\
+  write_class_aux (class_of (code_of (Some (1, 1)) [(Some 1%N, None, IRaw [177]%N)] (Some [(7%N, 3)]))) = WERR (ELabel [(1%N, 0)] [7%N]) /\
+  write_class_aux (class_of (code_of (Some (1, 1)) [(None, None, IBr (KJump 167 200) 5%N)] None)) = WERR (ECode [(None, Br (KJump 167 200) 5%N)] None) /\
+  write_class_aux (class_of (code_of (Some (1, 1)) [(Some 1%N, Some (CFChop 4), IRaw [177]%N)] None)) = WERR (EFrame [(1%N, 0)] (FChop 4)) /\
+  write_class_aux (class_of (code_of (Some (1, 1)) [] None)) = WERR (ECode [] None).
+Proof. exact error_examples. Qed.
+Print Assumptions C02_error_examples.
+
+(* ---------- far backward conditionals; the code_length limit after growth ---------- *)
+(* a conditional 32769 bytes after its target: the resolved path of if_helper — no restart, inverted condition +8,
+   goto_w relative to the goto_w opcode; the byte-only decoder finds target 0.  (General statement: C02_write_is_encode
+   and C02_targets_preserved, whose choice function chs_run takes the long form of a resolved reference by its true
+   offset.)  At exactly -32768 the short form is kept. *)
+Theorem C02_far_backward_conditional : far_back_check = true /\ near_back_check = true.
+Proof. exact (conj far_backward_conditional near_backward_conditional). Qed.
+Print Assumptions C02_far_backward_conditional.
+
+(* whatever the pool does to the instruction sizes (ldc becomes ldc_w when its index passes 255, in this or an earlier
+   method), the code array of a written Code attribute is what the loop produced for the lowered body, and
+   0 < code_length <= 65535 *)
+Theorem C02_code_length_limit : forall c, ccode_ok c = true ->
+  forall s r s', write_code_attr c s = WOK (r, s') ->
+  exists es Wd labs s1, mapW (fun i => e <- lower_insn (snd i) ;; ret (fst (fst i), e)) (c_insns c) s = WOK (es, s1) /\
+    wc_loop (S (length es)) [] es (c_last c) = Some (OK (fst (fst (snd r)), labs, Wd)) /\
+    0 < zlen (fst (fst (snd r))) <= 65535.
+Proof. exact code_length_limit. Qed.
+Print Assumptions C02_code_length_limit.
+
+(* ---------- invariants of the bootstrap-method table (no hypothesis on the tree) ---------- *)
+(* put_bootstrap_method de-duplicates: the written table holds no (handle, argument indices) pair twice *)
+Theorem C02_bootstrap_table_nodup : forall t bs aux, write_class_aux t = WOK (bs, aux) -> NoDup (a_bsm aux).
+Proof. exact bootstrap_table_nodup. Qed.
+Print Assumptions C02_bootstrap_table_nodup.
+
+(* every CONSTANT_Dynamic (tag 17) / CONSTANT_InvokeDynamic (tag 18) entry of the written pool has a
+   bootstrap_method_attr_index inside the written table — what the decoder of C02/Decode.v does not check *)
+Theorem C02_bootstrap_indices_in_table : forall t bs aux, write_class_aux t = WOK (bs, aux) ->
+  zlen (a_bsm aux) <= 65536 /\
+  Forall (fun e => forall tag b nt, (tag = 17%N \/ tag = 18%N) -> pe_key e = tag :: be16 b ++ be16 nt -> 0 <= b <= 65535 ->
+                   b < zlen (a_bsm aux)) (p_inner (a_pool aux)).
+Proof. exact bootstrap_indices_in_table. Qed.
+Print Assumptions C02_bootstrap_indices_in_table.
